@@ -56,6 +56,14 @@ def reader_rows(p, rd):
             return ("@" + e.slice.value, None)
         if isinstance(e, ast.Name) and e.id in locals_src:
             return locals_src[e.id]
+        t = norm(e)
+        if "element.text" in t:
+            return ("text", "unrecognised:" + t[:40])
+        if "element.attrib" in t:
+            import re as _re
+
+            m = _re.search(r"element\.attrib(?:\.get\(|\[)'([^']+)'", t.replace('"', "'"))
+            return ("@" + (m.group(1) if m else "?"), "unrecognised:" + t[:40])
         return None
 
     # local indirections (file_size = element.attrib.get("size"); hash_date = parse(hash_date_string) under `is not None`)
@@ -81,6 +89,22 @@ def reader_rows(p, rd):
                 tag = tag or "<format>"
             elif s.startswith("event == '"):
                 ev = s.split("'")[1]
+        sub = ""
+        for t, l in g.control_deps(g.node_for(node)):
+            if t.kind != "test":
+                continue
+            s = norm(t.ast)
+            if s == "current_object.is_directory":
+                sub = "/dir" if l == "T" else "/file"
+        if sub == "/dir":
+            for t, l in g.control_deps(g.node_for(node)):
+                s = norm(t.ast)
+                if t.kind == "test" and s in ("is_directory_structure == False", "not is_directory_structure"):
+                    sub = "/dir-content" if l == "T" else "/dir-structure"
+                elif t.kind == "test" and s in ("is_directory_structure", "is_directory_structure == True"):
+                    sub = "/dir-structure" if l == "T" else "/dir-content"
+        if tag == "<format>" and sub:
+            tag = tag + sub
         return cls, tag, ev
 
     def field_of_target(t, cls):
@@ -111,7 +135,8 @@ def reader_rows(p, rd):
             tgt = n.targets[0]
             fld = field_of_target(tgt, cls)
             v = n.value
-            if fld is not None:
+            is_ctor = isinstance(v, ast.Call) and p.resolve_name_expr(v.func, rd.module) in p.classes
+            if fld is not None and not is_ctor:
                 s = src_of(v)
                 if s:
                     rows.setdefault((cls, tag, s[0]), []).append((fld[0], fld[1], s[1], n))
@@ -166,8 +191,10 @@ def writer_rows(p, doc):
     """{(container tag, child tag or '.', slot)} -> (class, field, conv, node, func)"""
     rows = {}
 
-    def visit(el, container):
+    def visit(el, container, holder=None):
         tag = el.tagname() if isinstance(el.tag, str) else "<format>"
+        if tag == "<format>":
+            tag = "<format>" + {"content": "/dir-content", "structure": "/dir-structure"}.get(holder, "/file")
         key_tag = tag
         if el.text is not None:
             wv = writer_value(p, el.text[0], el.text[1])
@@ -176,7 +203,7 @@ def writer_rows(p, doc):
         if isinstance(el.tag, tuple):
             wv = writer_value(p, el.tag[1], el.func)
             if wv:
-                rows.setdefault((container, "<format>", "tag"), []).append(wv + (el.node, el.func))
+                rows.setdefault((container, tag, "tag"), []).append(wv + (el.node, el.func))
         for a in el.attrs:
             wv = writer_value(p, a.value, a.func)
             if wv:
@@ -184,7 +211,7 @@ def writer_rows(p, doc):
         for c in _child_elems(el.children):
             # containers that the reader treats as a context of their own
             nxt = tag if tag in CONTEXT_TAGS else container
-            visit(c, nxt)
+            visit(c, nxt, tag)
 
     visit(doc, None)
     return rows
@@ -232,6 +259,8 @@ def run(report, p):
         for (wcls, wfield, wconv, node, func) in vals:
             desc = f"<{container}>/<{tag}> {slot} <- {wcls}.{wfield}" + (f" via {wconv}" if wconv else "")
             r1.instance(func, node, desc)
+            if tag.endswith("/dir-structure") and slot != "text":
+                continue  # format tag / action / hashdate on <structure> children repeat those of the <content> entry; the reader takes them from <content>
             if slot == "@lastmodificationdate":
                 continue  # 3.11 #2: written, deliberately not parsed back; C10's statement does not list modification dates
             if container == "hashlistreference":
@@ -252,13 +281,13 @@ def run(report, p):
             for (rcls, rfield, rconv, rnode) in rr:
                 same_field = (rcls == wcls and rfield == wfield) or (wcls == "MHLProcess" and wfield == "process_type" and rcls == "MHLProcessInfo" and rfield == "process")
                 # directory entries: <content> text -> hash_string, <structure> text -> structure_hash_string (both rows exist under the same tag)
-                inv_ok = INVERSE.get(wconv) == rconv or (wconv is None and rconv in (None, "local") and wfield == "hash_string")
+                inv_ok = INVERSE.get(wconv) == rconv or (wconv is None and rconv == "local" and wfield == "hash_string" and tag.endswith("dir-content"))  # the reader passes directory content digests through the (identity-on-digests) path conversion
                 if same_field and inv_ok:
                     okf = True
             got = [(a, b, c) for a, b, c, _ in rr]
             r1.check(okf, func, node, f"the writer emits {desc} but the reader assigns {got}: written and re-read values differ (wrong field or missing inverse conversion)", construct=f"row mismatch {desc} vs {got}")
     # reader rows without a writer counterpart are harmless (backward compatibility), but each format-entry row must exist
-    for need_key in (("MHLMediaHash", "<format>", "tag"), ("MHLMediaHash", "<format>", "text"), ("MHLMediaHash", "<format>", "@action"), ("MHLMediaHash", "<format>", "@hashdate"), ("MHLMediaHash", "path", "@size"), ("MHLMediaHash", "previousPath", "text")):
+    for need_key in (("MHLMediaHash", "<format>/file", "tag"), ("MHLMediaHash", "<format>/file", "text"), ("MHLMediaHash", "<format>/file", "@action"), ("MHLMediaHash", "<format>/file", "@hashdate"), ("MHLMediaHash", "<format>/dir-content", "text"), ("MHLMediaHash", "<format>/dir-structure", "text"), ("MHLMediaHash", "path", "@size"), ("MHLMediaHash", "previousPath", "text")):
         r1.check(need_key in rrows, rd, rd.node, f"the reader has no assignment for {need_key}", construct=f"reader row {need_key}")
 
     # ------------------------------------------------------------------ R10.2
